@@ -207,6 +207,31 @@ impl AnyMap {
             _ => panic!("no {o}-cells in this dimension"),
         }
     }
+    /// Two plain orbit iterators alive at once, advanced in lock step (what a nested loop over
+    /// two orbits does).
+    pub fn orbit_pair(&self, p1: Policy, d1: u32, p2: Policy, d2: u32) -> (Vec<u32>, Vec<u32>) {
+        both!(self, |m| {
+            let (mut a, mut b) = (m.orbit(policy_of(p1), d1), m.orbit(policy_of(p2), d2));
+            let (mut ra, mut rb) = (vec![], vec![]);
+            let (mut da, mut db) = (false, false);
+            // (bounded: an iterator that lost its marks may never end)
+            while !(da && db) && ra.len() + rb.len() < 100_000 {
+                if !da {
+                    match a.next() {
+                        Some(x) => ra.push(x),
+                        None => da = true,
+                    }
+                }
+                if !db {
+                    match b.next() {
+                        Some(x) => rb.push(x),
+                        None => db = true,
+                    }
+                }
+            }
+            (ra, rb)
+        })
+    }
     pub fn custom_orbit(&self, list: usize, d: u32) -> Vec<u32> {
         both!(self, |m| m.orbit(OrbitPolicy::Custom(CUSTOM_LISTS[list]), d).collect())
     }
